@@ -12,6 +12,8 @@ eng = Engine(Repo())
 allob = []
 for q in names:
     if S.CONTRACTS[q].trusted: continue
+    from pyvc import models
+    models.LAMBDA_MODE[0] = S.CONTRACTS[q].ghost.get('mode') == 'lambda'
     try:
         r = verify_function(eng, q)
         print(q, 'paths', r['paths'], 'obligations', len(r['obligations']))
@@ -21,7 +23,7 @@ for q in names:
         if os.environ.get('TB'): traceback.print_exc()
         print("FAILED", q, e)
 t0=time.time()
-res = discharge(allob, timeout_s=10)
+res = discharge(allob, timeout_s=int(__import__('os').environ.get('TO','10')))
 for r in res:
     if r['verdict'] != 'proved':
         print(r['verdict'], r['name'], '%.2fs'%r['time'], r['trail'], (str(r['info'])[:600] if r['info'] else ''))
